@@ -69,6 +69,89 @@ Proof.
     destruct (IH _ _ _ _ _ _ _ E Hin) as [H|H]; auto.
 Qed.
 
+(* ---------- completeness of a run that ended with "ok": every entry below the bound has a row *)
+Lemma cache_get_app c k r : cache_get c k <> None -> cache_get (c ++ [r]) k <> None.
+Proof.
+  induction c as [|[k' v] c IH]; cbn [cache_get app]; [congruence|].
+  destruct (bytes_eqb k k'); [congruence|exact IH].
+Qed.
+Lemma cache_get_app_self c k v : cache_get (c ++ [(k, v)]) k <> None.
+Proof.
+  induction c as [|[k' v'] c IH]; cbn [cache_get app].
+  - rewrite bytes_eqb_refl. congruence.
+  - destruct (bytes_eqb k k'); [congruence|exact IH].
+Qed.
+Lemma insert_ignore_keeps c k v k0 : cache_get c k0 <> None -> cache_get (cache_insert_ignore c k v) k0 <> None.
+Proof. unfold cache_insert_ignore. destruct (cache_get c k); [auto|apply cache_get_app]. Qed.
+Lemma insert_ignore_self c k v : cache_get (cache_insert_ignore c k v) k <> None.
+Proof.
+  unfold cache_insert_ignore. destruct (cache_get c k) eqn:E; [congruence|apply cache_get_app_self].
+Qed.
+
+Lemma recompute_entries_keeps : forall ents c pos c1 ok k,
+  recompute_entries sha c ents pos = (c1, ok) -> cache_get c k <> None -> cache_get c1 k <> None.
+Proof.
+  induction ents as [|sl r IH]; intros c pos c1 ok k E H; cbn [recompute_entries] in E.
+  - inversion E; subst. exact H.
+  - destruct (l_idx (sl_leaf sl) =? Z.of_N pos)%Z.
+    + eapply IH; [exact E|]. apply insert_ignore_keeps. exact H.
+    + inversion E; subst. exact H.
+Qed.
+
+Lemma recompute_entries_all : forall ents c pos c1,
+  recompute_entries sha c ents pos = (c1, true) ->
+  forall sl, In sl ents -> cache_get c1 (leaf_ckey sha (sl_leaf sl)) <> None.
+Proof.
+  induction ents as [|sl0 r IH]; intros c pos c1 E sl Hin; [destruct Hin|].
+  cbn [recompute_entries] in E. destruct (l_idx (sl_leaf sl0) =? Z.of_N pos)%Z; [|discriminate].
+  destruct Hin as [->|Hin].
+  - eapply recompute_entries_keeps; [exact E|]. apply insert_ignore_self.
+  - eapply IH; eauto.
+Qed.
+
+Lemma rc_loop_keeps s ls top : forall fuel start c c1 why k,
+  rc_loop sha fuel s ls top start None c = (c1, why) -> cache_get c k <> None -> cache_get c1 k <> None.
+Proof.
+  induction fuel as [|f IH]; intros start c c1 why k E H; cbn [rc_loop] in E.
+  - inversion E; subst. exact H.
+  - destruct (top <=? start); [inversion E; subst; exact H|].
+    destruct (forallb _ _); [|inversion E; subst; exact H].
+    match type of E with context [recompute_entries sha c ?ents start] =>
+      destruct (recompute_entries sha c ents start) as [c2 ok] eqn:E2 end.
+    pose proof (recompute_entries_keeps _ _ _ _ _ k E2 H) as H2.
+    destruct (negb ok); [inversion E; subst; exact H2|].
+    eapply IH; [exact E|exact H2].
+Qed.
+
+Lemma nth_error_firstn_lt {A} (l : list A) : forall n j, (j < n)%nat -> nth_error (firstn n l) j = nth_error l j.
+Proof.
+  induction l as [|a l IH]; intros [|n] [|j] H; cbn; try lia; auto. apply IH. lia.
+Qed.
+Lemma nth_error_skipn_add {A} (l : list A) : forall k j, nth_error (skipn k l) j = nth_error l (k + j).
+Proof. induction l as [|a l IH]; intros [|k] j; cbn; auto. destruct j; reflexivity. Qed.
+
+Lemma rc_loop_all s ls top : top <= N.of_nat (length ls) ->
+  forall fuel start c c1,
+  rc_loop sha fuel s ls top start None c = (c1, "ok"%string) ->
+  forall j sl, start <= N.of_nat j -> N.of_nat j < top -> nth_error ls j = Some sl ->
+    cache_get c1 (leaf_ckey sha (sl_leaf sl)) <> None.
+Proof.
+  intros Hlen. induction fuel as [|f IH]; intros start c c1 E j sl Hs Ht Hn; cbn [rc_loop] in E.
+  - inversion E.
+  - destruct (top <=? start) eqn:Ets; [lia|].
+    destruct (forallb _ _); [|inversion E].
+    match type of E with context [recompute_entries sha c ?ents start] =>
+      destruct (recompute_entries sha c ents start) as [c2 ok] eqn:E2 end.
+    destruct ok; cbn [negb] in E; [|inversion E].
+    destruct (N.of_nat j <? N.min top (start + 12800)) eqn:Ej.
+    + eapply rc_loop_keeps; [exact E|].
+      eapply recompute_entries_all; [exact E2|].
+      apply nth_error_In with (n := (j - N.to_nat start)%nat).
+      unfold slice. rewrite nth_error_firstn_lt by lia. rewrite nth_error_skipn_add.
+      replace (N.to_nat start + (j - N.to_nat start))%nat with j by lia. exact Hn.
+    + eapply IH; [exact E| |exact Ht|exact Hn]. lia.
+Qed.
+
 Lemma rc_top_le n : rc_top n <= n.
 Proof. unfold rc_top. destruct (n / 256 * 256 =? 0) eqn:E; lia. Qed.
 
